@@ -242,7 +242,13 @@ def coq_eval(prop: str, imports: str, expr: str, timeout=300) -> str:
 
 # ---------------------------------------------------------------- verdict handling
 class Broken(Exception):
-    pass
+    """the machinery itself is broken (Coq build, printer, verdict parser): exit 2"""
+
+
+class HarnessProblem(Broken):
+    """the implementation did something the harness cannot observe or the model cannot express
+    (an exception out of the driving code, an API that is gone): the correspondence is broken;
+    reported as a violation without a failing input"""
 
 
 def broken(msg: str):
@@ -587,6 +593,27 @@ def _shrink(run, spec, case, obs, ch, clause, rounds):
             break
         case, obs, ch = nxt
     return case, obs, ch
+
+
+def load_replay_case(path: str):
+    payload = json.loads(Path(path).read_text() if os.path.isabs(path)
+                         else (VERIF / path).read_text())
+    case = payload['case']['case'] if isinstance(payload.get('case'), dict) and 'case' in payload['case'] \
+        else payload['case']
+    return payload, case
+
+
+def directed_replay(run: Run, path: str, fn) -> int:
+    """Replay of a violation found by a directed sub-check: run the sub-check again (fn records
+    violations in run) and report."""
+    fn()
+    if run.violations:
+        for v in run.violations:
+            print(v['detail'])
+        print(f"VIOLATION property={run.prop} replay={path}")
+        return 1
+    print(f"[{run.prop}] replay: behaviour accepted, monitor ok")
+    return 0
 
 
 def std_replay(run: Run, spec: Spec, path: str) -> int:
